@@ -2,19 +2,26 @@
 """selftest/harmless_edits.py - behaviour-preserving rewrites of /repo (applied one at a time, then undone) on which every
 check must stay quiet (exit 0).  Usage: harmless_edits.py [name ...]   Needs a clean /repo working tree."""
 import subprocess, sys, os
-R = "/repo/src/"
+REPO = os.environ.get("VERIF_REPO", "/repo")
+R = REPO + "/src/"
 EDITS = {
  "H1_setopt_locals": ("confuse.c", [("	char *endptr;\n\n	if (!cfg || !opt) {", "	char *endptr = NULL;\n\n	if (opt == NULL || cfg == NULL) {")], ["C04", "C10", "C14"]),
  "H2_lexer_patterns": ("lexer.l", [('"#"{1,}.*   return qstr', '"#"+.*   return qstr'), ("[ \\t]+    /* eat up whitespace */", "[\\t ]+    /* eat up whitespace */"),
                                    ('"("         { cfg_yylval = yytext; return \'(\'; }\n")"         { cfg_yylval = yytext; return \')\'; }', '")"         { cfg_yylval = yytext; return \')\'; }\n"("         { cfg_yylval = yytext; return \'(\'; }')], ["C03", "C15"]),
- "H3_free_null": ("confuse.c", [("			if (comment)\n				free(comment);\n\n			return STATE_EOF;\n		}\n\n		switch (state) {", "			free(comment);\n\n			return STATE_EOF;\n		}\n\n		switch (state) {")], ["C01", "C07"]),
+ "H3_free_null": ("confuse.c", [("				if (comment)\n					free(comment);\n\n				return STATE_EOF;", "				free(comment);\n\n				return STATE_EOF;")], ["C01", "C07"]),
  "H4_getval_shape": ("confuse.c", [("		if (index >= opt->nvalues)\n			val = cfg_addval(opt);\n		else\n			val = opt->values[index];", "		if (index < opt->nvalues)\n			val = opt->values[index];\n		else\n			val = cfg_addval(opt);")], ["C09", "C10"]),
  "H5_print_hoist": ("confuse.c", [("	for (i = 0; cfg->opts[i].name; i++) {\n		cfg_print_filter_func_t pff = cfg->pff ? cfg->pff : fb_pff;\n		if (pff", "	cfg_print_filter_func_t pff = cfg->pff ? cfg->pff : fb_pff;\n\n	for (i = 0; cfg->opts[i].name; i++) {\n		if (pff")], ["C19"]),
  "H6_dupopt_order": ("confuse.c", [("		dupopts[i].name = NULL;\n		dupopts[i].subopts = NULL;", "		dupopts[i].subopts = NULL;\n		dupopts[i].name = NULL;")], ["C16"]),
+ "H8_setnstr_free": ("confuse.c", [("	if (oldstr)\n		free(oldstr);\n	opt->flags |= CFGF_MODIFIED;", "	free(oldstr);\n	opt->flags |= CFGF_MODIFIED;")], ["C07", "C09"]),
+ "H9_comment_replace": ("confuse.c", [("				if (comment)\n					free(comment);\n				comment = strdup(cfg_yylval);", "				free(comment);\n				comment = strdup(cfg_yylval);")], ["C15", "C07"]),
+ "H10_wrappers_direct": ("confuse.c", [("	return cfg_getnint(cfg, name, 0);", "	return cfg_opt_getnint(cfg_getopt(cfg, name), 0);"), ("	return cfg_setnbool(cfg, name, value, 0);", "	return cfg_opt_setnbool(cfg_getopt(cfg, name), value, 0);")], ["C09"]),
+ "H11_numopts_while": ("confuse.c", [("	for (n = 0; opts && opts[n].name; n++)\n		CFG_VERIF_LOOP(numopts)\n		/* do nothing */ ;", "	n = 0;\n	while (opts && opts[n].name)\n		CFG_VERIF_LOOP(numopts)\n		n++;")], ["C16"]),
+ "H12_secidx_strtol": ("confuse.c", [("			if (endptr == title || *endptr != '\\0')\n				i = -1;", "			if (*endptr != '\\0' || endptr == title)\n				i = -1;")], ["C11"]),
+ "H13_section_fields_order": ("confuse.c", [("			val->section->line = cfg->line;\n			val->section->errfunc = cfg->errfunc;\n			val->section->title", "			val->section->errfunc = cfg->errfunc;\n			val->section->line = cfg->line;\n			val->section->title")], ["C01", "C06"]),
  "H7_searchpath_else": ("confuse.c", [("	if ((fullpath = cfg_searchpath(p->next, file)) != NULL)\n		return fullpath;", "	fullpath = cfg_searchpath(p->next, file);\n	if (fullpath)\n		return fullpath;")], ["C17"]),
 }
 names = sys.argv[1:] or list(EDITS)
-if subprocess.run(["git", "-C", "/repo", "diff", "--quiet"]).returncode != 0:
+if subprocess.run(["git", "-C", REPO, "diff", "--quiet"]).returncode != 0:
     print("repository not clean"); sys.exit(2)
 bad = 0
 for n in names:
@@ -33,5 +40,5 @@ for n in names:
                 bad = 1
                 print(r.stderr.decode()[-1500:])
     finally:
-        subprocess.run(["git", "-C", "/repo", "checkout", "--", "."])
+        subprocess.run(["git", "-C", REPO, "checkout", "--", "."])
 sys.exit(bad)
